@@ -3,7 +3,7 @@
    arguments and encoding of results is done here, inside Coq, so that the
    OCaml driver contains no logic and the same cases can be re-evaluated with
    vm_compute in the kernel. *)
-From PSA Require Import model.Bytes model.Checksum model.Layer model.Dhcp model.Clients model.Ipdb model.IpdbCheck spec.SpecCodec spec.SpecTable spec.SpecIpdb model.Server.
+From PSA Require Import model.Bytes model.Checksum model.Layer model.Dhcp model.Clients model.Ipdb model.IpdbCheck spec.SpecCodec spec.SpecTable spec.SpecIpdb model.Server spec.Monitors.
 Open Scope N_scope.
 
 Definition arg (args : list (list N)) (i : nat) : list N := nth i args [].
@@ -184,6 +184,15 @@ Definition dispatch_server (tag : N) (a : LL) : LL :=
   | Some (c, rounds) =>
     match tag with
     | 101 => [accept_history c (initial_table c) rounds]
+    | 201 => [[b2n (mon_C01 c rounds)]]
+    | 202 => [[b2n (mon_C02 c rounds)]]
+    | 203 => [[b2n (mon_C03 c rounds)]]
+    | 204 => [[b2n (mon_C04 c rounds)]]
+    | 205 => [[b2n (mon_C05 c rounds)]]
+    | 206 => [[b2n (mon_C06 c rounds)]]
+    | 207 => [[b2n (mon_C07 c rounds)]]
+    | 208 => [[b2n (mon_C08 c rounds)]]
+    | 210 => [[b2n (mon_C10 c rounds)]]
     | _ => [[99]]
     end
   end.
